@@ -253,11 +253,14 @@ func requiredFamily(valid M) []struct {
 		// a member set to null is a member left out (ActivityStreams 2.0
 		// core: "null ... equivalent to the property being absent")
 		mk("missing-object:null", func(m M) { m["object"] = nil })
+		mk("missing-object:list-of-nulls", func(m M) { m["object"] = A{nil, nil} })
+		mk("missing-object:list-of-one-null", func(m M) { m["object"] = A{nil} })
 	}
 	if typ == "Add" || typ == "Remove" {
 		mk("missing-target:absent", func(m M) { delete(m, "target") })
 		mk("missing-target:empty-list", func(m M) { m["target"] = A{} })
 		mk("missing-target:null", func(m M) { m["target"] = nil })
+		mk("missing-target:list-of-nulls", func(m M) { m["target"] = A{nil, nil, nil} })
 		// the member that is present may be of any shape: the body still
 		// lacks a required member
 		mk("missing-target:absent,object-without-id", func(m M) { delete(m, "target"); m["object"] = M{"type": "Note", "content": "anonymous"} })
